@@ -113,7 +113,8 @@ pub fn prepare(case: &DripCase) -> Prepared {
                 continue;
             }
             let key = if pi == 0 { HKEY.to_string() } else { format!("{HKEY}{pi}") };
-            let k = case.tag_every as usize;
+            // at most ~600 harness tags per port (every read window copies all buffered tags)
+            let k = (case.tag_every as usize).max(d.len() / 600).max(1);
             let mut i = 0;
             while i < d.len() {
                 tags[pi].push((i, key.clone(), TagValue::U64(i as u64)));
